@@ -2,6 +2,7 @@
 From PV Require Export Model.ComponentsX Model.EnginesX Model.SelectX Model.SimulatorX.
 From PV Require Model.RemoteJob.   (* not exported: its short names (step, run, status, ...) stay qualified *)
 From PV Require Export Model.LocalJobX.
+From PV Require Export Model.ComponentsX Model.DetectorX.
 
 Definition dispatch (f : Z) (x : sx) : sx :=
   match f with
@@ -14,5 +15,7 @@ Definition dispatch (f : Z) (x : sx) : sx :=
      1703 = the code before the repairs (kept for the _refuted theorems and their witnesses) *)
   | 1700 => RemoteJob.x_rj_patch x | 1701 => RemoteJob.x_rj_patch x | 1702 => RemoteJob.x_rj_spec x | 1703 => RemoteJob.x_rj_code x
   | 1800 => x_localjob_run x | 1801 => x_handle_params x
+  | 800 => x_cond x | 801 => x_detect x | 802 => x_mk_detector x | 803 => x_tree_leaves x
+  | 804 => x_detection_type x | 805 => x_check_heralds x | 806 => x_simulate x | 807 => x_closed x
   | _ => L []
   end%Z.
